@@ -15,6 +15,18 @@ package c16
 // holder's record and bank balance alone.  The same probes go to the Coq model
 // (Model/Auth.v) which must predict accept / refuse / panic of every attempt
 // and reproduce the written component after every committed message.
+//
+// The designated principals change during a history: between probes the oracle
+// list of a market, the owner of an issuance asset, the deputy of a bep3 asset
+// are changed through the x/params proposal handler, and committee member lists
+// are replaced / committees deleted through the x/committee proposal handler,
+// both taken from the gov router of the app under test (ops.go admin).  The app,
+// its keepers and msg servers live for the whole history, so anything a keeper
+// remembers outside the store can go stale.  isPrincipal reads the lists back
+// from the store (view.go), so after a change every former principal must be
+// refused (nothing written) and — for messages whose other conditions do not
+// depend on the signer — every new principal accepted.  The model takes the
+// same changes as [IAdmin] items and must reproduce the changed lists.
 
 import (
 	. "kavaverif/lib"
@@ -34,6 +46,8 @@ import (
 )
 
 func init() { Registry["C16"] = runC16 }
+
+var c16AllKinds = append(append([]string(nil), c16Kinds...), c16AdminKinds...)
 
 type c16Hist struct {
 	Seed    uint64   `json:"seed"`
@@ -208,8 +222,11 @@ func (w *c16World) frameMonitor(op c16Op, before, after *c16View) (pred, sig, de
 			}
 		}
 	case "swap":
-		for _, s := range after.allSwaps {
-			if s.incoming && (s.denom < 0 || s.sender != after.b3dep[s.denom]) {
+		// the swap this message recorded (newest first): incoming only when its sender is the asset's
+		// deputy of the state the message ran in (the deputy may have been changed since older swaps)
+		if len(after.swaps) > 0 {
+			s := after.swaps[0]
+			if s.incoming && (s.denom < 0 || s.denom >= len(before.b3dep) || s.sender != before.b3dep[s.denom]) {
 				return "incoming-swap-from-deputy", "incoming-swap-not-from-deputy", fmt.Sprintf("sender %d denom %d", s.sender, s.denom)
 			}
 		}
@@ -235,7 +252,7 @@ func c16Run(seed uint64, idx, n int, enabled []string, ops []c16Op, cnt *Counter
 	r := NewRng(seed, uint64(idx))
 	w := c16Setup(r)
 	if len(enabled) == 0 {
-		enabled = c16Kinds
+		enabled = c16AllKinds
 	}
 	var out c16Out
 	inc := func(k string) {
@@ -252,6 +269,7 @@ func c16Run(seed uint64, idx, n int, enabled []string, ops []c16Op, cnt *Counter
 	}
 	header := w.coqEnv() + "\n  " + v.coqState()
 	var probes []string
+	lastAdmin := map[string]adminMark{} // module -> the latest applied change of its principals
 	if ops != nil {
 		n = len(ops)
 	}
@@ -268,6 +286,30 @@ func c16Run(seed uint64, idx, n int, enabled []string, ops []c16Op, cnt *Counter
 			op = w.genOp(r, v, enabled)
 		}
 		out.ops = append(out.ops, op)
+		if isAdmin(op.Kind) {
+			// a change of the designated principals, through the gov router of the app (committed when accepted)
+			cls, aerr := Atomically(w.ctx, func(ctx sdk.Context) error { return w.admin(ctx, op) })
+			out.evals++
+			_ = aerr
+			code := 1
+			if cls == ClassPanic {
+				code = 3 // the model never panics on a change of principals: reported as a mismatch
+				inc("admin:" + op.Kind + ":panicked")
+			}
+			var after []*big.Int
+			if cls == ClassOk {
+				code = 0
+				nv := w.view(w.ctx)
+				c16AdminSplits(op, v, nv, inc)
+				v = nv
+				after = w.aproject(v, op.Kind)
+				lastAdmin[adminGuards(op.Kind)] = adminMark{i, op.A}
+			} else {
+				inc("split:admin:" + op.Kind + ":refused")
+			}
+			probes = append(probes, fmt.Sprintf("IAdmin (%s) %s %s", coqAdmin(op), Nat(code), ZList(after)))
+			continue
+		}
 		base := w.digest(w.ctx)
 		var eo earnOracle
 		if op.Kind == "earnwd" {
@@ -332,6 +374,21 @@ func c16Run(seed uint64, idx, n int, enabled []string, ops []c16Op, cnt *Counter
 				codes[b] = 3
 			}
 			_ = err
+		}
+		if holds, ok := w.othersHold(v, op); ok && holds {
+			// every account the CURRENT list designates is accepted (the message's other conditions do not depend on the signer)
+			for b := 0; b < w.nacc; b++ {
+				if w.isPrincipal(v, op, b) && codes[b] != 0 {
+					setFail(i, "designated-principal-accepted", "designated-principal-refused:"+c16Handler[op.Kind],
+						fmt.Sprintf("%s refused from actor %d (%s), who is a designated principal in the current state and the message's other conditions hold", c16Handler[op.Kind], b, w.names[b]))
+				}
+			}
+		}
+		if m, ok := lastAdmin[adminGuards(op.Kind)]; ok && (m.a == op.A || op.Kind == "vote") {
+			inc("split:reprobe:" + op.Kind + ":after-change-of-principals")
+			if i == m.step+1 {
+				inc("split:reprobe:next-operation-after-change")
+			}
 		}
 		pcode := codes[op.P]
 		inc("op:" + op.Kind + ":principal-" + []string{"ok", "err", "err", "panic"}[pcode])
@@ -398,7 +455,7 @@ func c16Run(seed uint64, idx, n int, enabled []string, ops []c16Op, cnt *Counter
 		for k, c := range codes {
 			att[k] = fmt.Sprint(c)
 		}
-		probes = append(probes, fmt.Sprintf("mkProbe (%s)\n     [%s]%%nat %s %s",
+		probes = append(probes, fmt.Sprintf("IProbe (mkProbe (%s)\n     [%s]%%nat %s %s)",
 			w.coqOp(op, pcode == 0, eo), strings.Join(att, ";"), Bool(commit), ZList(after)))
 		if idx < 2 && i < 4 {
 			out.sample = nil
@@ -406,6 +463,105 @@ func c16Run(seed uint64, idx, n int, enabled []string, ops []c16Op, cnt *Counter
 	}
 	out.coq = fmt.Sprintf("mkHist %s\n  %s", header, List(probes))
 	return out
+}
+
+type adminMark struct{ step, a int }
+
+// adminGuards names the list a kind of change writes / a kind of message reads.
+func adminGuards(kind string) string {
+	switch kind {
+	case "setoracles", "postprice":
+		return "oracles"
+	case "setowner", "issue", "redeem", "block", "unblock", "pause":
+		return "owner"
+	case "setdeputy", "swap":
+		return "deputy"
+	case "setmembers", "delcom", "submit", "vote":
+		return "members"
+	}
+	return "none:" + kind
+}
+
+func diffLists(before, after []int) (removed, added []int) {
+	for _, x := range before {
+		if !contains(after, x) {
+			removed = append(removed, x)
+		}
+	}
+	for _, x := range after {
+		if !contains(before, x) {
+			added = append(added, x)
+		}
+	}
+	return
+}
+
+// c16AdminSplits counts the shapes of applied changes of principals.
+func c16AdminSplits(op c16Op, before, after *c16View, inc func(string)) {
+	inc("split:admin:" + op.Kind + ":applied")
+	members := func(v *c16View, id int) ([]int, bool) {
+		for _, c := range v.coms {
+			if c.id == id {
+				return c.members, true
+			}
+		}
+		return nil, false
+	}
+	switch op.Kind {
+	case "setoracles":
+		if op.A < len(before.markets) {
+			rem, add := diffLists(before.markets[op.A], after.markets[op.A])
+			if len(add) > 0 {
+				inc("split:admin:setoracles:oracle-added")
+			}
+			for _, a := range rem {
+				inc("split:admin:setoracles:oracle-removed")
+				if _, ok := before.prices[[2]int{op.A, a}]; ok {
+					inc("split:admin:setoracles:removed-oracle-had-posted")
+				}
+			}
+		}
+	case "setowner":
+		if op.A < len(before.assets) && before.assets[op.A].owner != after.assets[op.A].owner {
+			inc("split:admin:setowner:owner-changed")
+		}
+	case "setdeputy":
+		if op.A < len(before.b3dep) && before.b3dep[op.A] != after.b3dep[op.A] {
+			inc("split:admin:setdeputy:deputy-changed")
+			for _, s := range before.allSwaps {
+				if s.incoming && s.denom == op.A {
+					inc("split:admin:setdeputy:incoming-swap-of-former-deputy-recorded")
+					break
+				}
+			}
+		}
+	case "setmembers":
+		bm, existed := members(before, op.A)
+		am, _ := members(after, op.A)
+		if !existed {
+			inc("split:admin:setmembers:committee-created")
+		}
+		rem, add := diffLists(bm, am)
+		if len(rem) > 0 {
+			inc("split:admin:setmembers:member-removed")
+		}
+		if len(add) > 0 && existed {
+			inc("split:admin:setmembers:member-added")
+		}
+		if len(after.props) < len(before.props) {
+			inc("split:admin:setmembers:closes-proposals")
+		}
+		if len(after.votes) < len(before.votes) {
+			inc("split:admin:setmembers:closes-votes")
+		}
+	case "delcom":
+		if _, existed := members(before, op.A); existed {
+			inc("split:admin:delcom:committee-deleted")
+		}
+		if len(after.props) < len(before.props) {
+			inc("split:admin:delcom:closes-proposals")
+		}
+	}
 }
 
 // c16CommitSplits counts proof-relevant case splits of committed messages.
@@ -448,7 +604,17 @@ var c16GateSplits = func() []string {
 	return append(out, "swap:incoming", "swap:outgoing", "vote:member-committee", "vote:token-committee", "repay:closes-cdp",
 		"hardwd:capped-to-record", "savwd:capped-to-record", "block:principal-panic", "postprice:another-principal-accepted",
 		"issue:rate-limited-asset", "earnwd:dust-removed", "swap:several-coins",
-		"swap:several-coins-from-first-deputy-other-deputy-second")
+		"swap:several-coins-from-first-deputy-other-deputy-second",
+		"admin:setoracles:applied", "admin:setoracles:oracle-added", "admin:setoracles:removed-oracle-had-posted", "admin:setoracles:refused",
+		"admin:setowner:owner-changed", "admin:setowner:refused", "admin:setdeputy:deputy-changed",
+		"admin:setdeputy:incoming-swap-of-former-deputy-recorded",
+		"admin:setmembers:member-removed", "admin:setmembers:member-added", "admin:setmembers:committee-created",
+		"admin:setmembers:closes-proposals", "admin:setmembers:closes-votes", "admin:setmembers:refused",
+		"admin:delcom:committee-deleted", "admin:delcom:closes-proposals",
+		"reprobe:postprice:after-change-of-principals", "reprobe:submit:after-change-of-principals",
+		"reprobe:vote:after-change-of-principals", "reprobe:swap:after-change-of-principals",
+		"reprobe:pause:after-change-of-principals", "reprobe:issue:after-change-of-principals",
+		"reprobe:next-operation-after-change")
 }()
 
 func runC16(o Opts) (*Result, error) {
@@ -458,7 +624,7 @@ func runC16(o Opts) (*Result, error) {
 	}
 	res := &Result{Property: "C16", Seed: o.Seed,
 		Rule: "a history is a fresh app.TestApp with PRNG-drawn oracle lists, asset owners, deputies, committees, CDPs and deposits, followed by " + fmt.Sprint(n) +
-			" probed privileged messages; each probe sends the same message with each of the 33 actors (10 users, 23 module accounts) as signer through the real msg server; " +
+			" operations: probed privileged messages and changes of the designated principals (oracle lists, asset owners, deputies through the x/params proposal handler, committee member lists and deletions through the x/committee proposal handler of the app's gov router; directed sequences let a principal use its right, remove it, and probe again); each probe sends the same message with each of the 33 actors (10 users, 23 module accounts) as signer through the real msg server; " +
 			"a probe is non-trivial when the designated principal's message is accepted and at least one other signer is refused by the guard; distinct by hash of (message, per-actor outcome vector)"}
 	cnt := NewCounters()
 
